@@ -97,9 +97,17 @@ def make_switch(ch, params):
     for fi in range(nf):
         t = ch.pick((I32, I64))
         K = 1 + ch.below(6)
+        if params.get('deep') and fi == 0:
+            # the shape a compiler gives a dense C switch: hundreds of nested blocks (no loops / ifs: every label of a block is a
+            # plain C label), one table entry per block
+            K = ch.pick((100, 200, 250, 254, 255, 256, 257, 300, 400))
         N = ch.pick((0, 1, 2, 7, 255, 256, 257, 258, 300, 511, 512, 513, 1000, 2049, 256 * (1 + ch.below(5)) + ch.below(3), ch.below(40)))
         style = ch.below(3)
-        if style == 0:
+        if K >= 100:
+            N, style = K + ch.below(3), 3
+        if style == 3:
+            tl = [i % K for i in range(N)]
+        elif style == 0:
             tl = [ch.below(K) for _ in range(N)]
         elif style == 1:
             tl = [(i * 7 + i // 256) % K for i in range(N)]          # differs from chunk to chunk
@@ -114,7 +122,7 @@ def make_switch(ch, params):
         body = inner
         for j in range(K):
             body = [('block', t, body), ('%s.const' % t, (1000003 ** (j + 1)) % (1 << 31)), ('%s.add' % t,)]
-        if ch.below(2):
+        if ch.below(2) and K < 100:
             # the same switch inside a loop iteration / an if arm (label indices shift by one, the table is emitted at another depth)
             body = [('local.get', 0), ('i32.const', -1), ('i32.ne',), ('if', t, body, [('local.get', 1)])]
         m.funcs.append(Func(m.type_index((I32, t), (t,)), [], body))
